@@ -221,6 +221,9 @@ class Polarization(BaseState):
                 self.state, jnp.array([[1 / jnp.sqrt(2)], [-1j / jnp.sqrt(2)]])
             ):
                 self.state = PolarizationLabel.L
+            else:
+                # Not a label state, the vector is kept
+                return
             self.expansion_level = ExpansionLevel.Label
 
     def extract(self, index: Union[int, Tuple[int, int]]) -> None:
